@@ -156,6 +156,8 @@ def collect_scripts(rng, tier, rep):
     import numpy
     import treelog
     from nutils import evaluable as ev, parallel, mesh, function
+    import warnings
+    warnings.simplefilter('ignore')     # ExpensiveEvaluationWarning etc. of the sample programs
     scripts = []      # (origin, script)
     nfail = 0
     t0 = time.time()
@@ -200,7 +202,7 @@ def exprbuilder_scripts(rep, rng):
     from nutils import evaluable as ev, parallel
     from .. import exprs, dag
     loops = exprs.generate(rep, 'c16-loops', MaxNodes=10, MaxOps=5, MaxLeaves=4, EmitMin=3, Ops=exprs.LOOP_OPS,
-                           LeafSet='{1, 2, 8, 13, 14, 20, 22, 23}', simulate=1500, depth=11, seed=rep.seed + 12)
+                           LeafSet='{1, 2, 8, 13, 14, 20, 22, 23}', simulate=600, depth=11, seed=rep.seed + 12)
     loops = [p for p in loops if any(n['op'] in ('LoopSum', 'LoopConcat') for n in p)]
     scripts = []
     for prog in loops:
@@ -225,7 +227,7 @@ def describe(rec):
     for st in rec['body']:
         if st['op'] == 'rmw' and rec['shared'][st['arr'] - 1] and not st['locks']:
             why.append('unlocked-write')
-        if st['op'] == 'rmw' and not rec['shared'][st['arr'] - 1]:
+        if st['op'] in ('rmw', 'slot') and not rec['shared'][st['arr'] - 1]:
             why.append('private-result')
     return '+'.join(sorted(set(why))) or 'locks'
 
@@ -289,7 +291,7 @@ def check_table(rep, scripts, tag='c16-table'):
 
 def simulate(rep, tier, seed):
     """TLC -simulate over Parallel with history recording (spec/MCParallel_sim.cfg); returns the emitted behaviours"""
-    res = tlc.run('MCParallelIO', 'MCParallel_sim.cfg', tag='c16-sim', workers=1, simulate=dict(num=30 if tier == 'quick' else 400), depth=600,
+    res = tlc.run('MCParallelIO', 'MCParallel_sim.cfg', tag='c16-sim', workers=1, simulate=dict(num=24 if tier == 'quick' else 250), depth=600,
                   seed=seed, deadlock=False, timeout=800)
     if res.violated:
         raise RuntimeError('design spec Parallel violates {} in simulation'.format(res.violated))
@@ -299,24 +301,28 @@ def simulate(rep, tier, seed):
 def replay(rep, behs, nserv=3):
     """run the slim replay servers (c16_step) over the behaviours"""
     jobs = [(b['cfg'], dict(hist=b['hist'], outcome=b['outcome'], result=b['result'], index=b['index'])) for b in behs]
+    wd = os.path.join(WORK, 'replay')
+    os.makedirs(wd, exist_ok=True)
     procs = []
     for k in range(nserv):
         chunk = jobs[k::nserv]
         if not chunk:
             continue
-        p = subprocess.Popen([PY, '-B', '-m', 'vf.props.c16_step'], stdin=subprocess.PIPE, stdout=subprocess.PIPE, stderr=subprocess.PIPE, env=_env(), text=True)
-        p.stdin.write(json.dumps(chunk))
-        p.stdin.close()
-        procs.append((p, chunk, list(range(k, len(jobs), nserv))))
+        inp, outp = os.path.join(wd, 'jobs{}.json'.format(k)), os.path.join(wd, 'result{}.json'.format(k))
+        with open(inp, 'w') as f:
+            json.dump(chunk, f)
+        if os.path.exists(outp):
+            os.unlink(outp)
+        p = subprocess.Popen([PY, '-B', '-m', 'vf.props.c16_step', inp, outp], stdin=subprocess.DEVNULL, stdout=subprocess.DEVNULL, stderr=subprocess.PIPE, env=_env(), text=True)
+        procs.append((p, outp, list(range(k, len(jobs), nserv))))
     out = [None] * len(jobs)
-    for p, chunk, idx in procs:
-        data = p.stdout.read()
-        err = p.stderr.read()
-        rc = p.wait()
-        if rc != 0 or not data:
-            raise RuntimeError('replay server failed (rc={}): {}'.format(rc, err[-2000:]))
-        for i, o in zip(idx, json.loads(data)):
-            out[i] = o
+    for p, outp, idx in procs:
+        _, err = p.communicate()
+        if p.returncode != 0 or not os.path.exists(outp):
+            raise RuntimeError('replay server failed (rc={}): {}'.format(p.returncode, err[-2000:]))
+        with open(outp) as f:
+            for i, o in zip(idx, json.load(f)):
+                out[i] = o
     return out
 
 
@@ -325,7 +331,7 @@ def replay(rep, behs, nserv=3):
 
 def scenarios(rng, tier):
     out = []
-    n = 8 if tier == 'quick' else 90
+    n = 7 if tier == 'quick' else 60
     kinds = ['integrate', 'locate', 'eval', 'evalint', 'integral', 'locate', 'integrate', 'locate']
     for k in range(n):
         kind = kinds[k % len(kinds)] if k < len(kinds) else rng.choice(kinds)
@@ -383,7 +389,7 @@ def locate_rec():
     return recs[0] if recs else None
 
 
-def build_episodes(sc, res, events, scripts, cache):
+def build_episodes(sc, res, events, scripts, cache, counters):
     """cut the events of one scenario into episodes (one parallel.ctxrange each) in the form TraceParallel reads"""
     parent = events[0]['pid']
     # children of every fork, procid by position
@@ -393,10 +399,6 @@ def build_episodes(sc, res, events, scripts, cache):
     nctx = 0
     inbody = {}
     nested = {}
-    pid2 = {}       # pid -> (episode index, procid)
-    for e in events:
-        if e['ev'] == 'fork' and e['pid'] == parent:
-            pass
     # first pass: fork events in order of the parent's ctxrange events
     k = -1
     parent_inbody = False
@@ -412,8 +414,6 @@ def build_episodes(sc, res, events, scripts, cache):
             parent_inbody = False
         elif e['ev'] == 'fork' and k >= 0:
             forks[k] = e
-            for c, pid in enumerate(e['children']):
-                pid2[pid] = (k, c + 1)
     k = -1
     for e in events:
         ev, pid = e['ev'], e['pid']
@@ -435,12 +435,16 @@ def build_episodes(sc, res, events, scripts, cache):
                 eps.append(cur)
                 continue
             p, ep = 0, cur
-        elif pid in pid2:
-            ke, p = pid2[pid]
-            ep = eps[ke] if ke < len(eps) else None
+        elif k in forks and pid in forks[k]['children']:
+            # episodes are sequential: the children of an episode log between the parent's ctxrange and its last wait
+            p, ep = forks[k]['children'].index(pid) + 1, cur
         else:
             continue
         if ep is None:
+            continue
+        if ep.get('closed') and p != 0:
+            # between the parent's decision to kill its children (logged) and the delivery of SIGKILL a child may
+            # still log a step; the model kills at the log point
             continue
         # nested ctxrange inside a loop body (maxprocs is 1 there): not an episode of its own
         if ev == 'ctxrange':
@@ -465,7 +469,7 @@ def build_episodes(sc, res, events, scripts, cache):
             inbody[pid] = False
             ep['events'].append(dict(p=p, ev='child_exit', v=int(e['code']), ok=True))
         elif ev == 'wait':
-            c = pid2.get(e['child'], (None, 0))[1]
+            c = ep['children'].index(e['child']) + 1 if e['child'] in ep['children'] else 0
             ep['events'].append(dict(p=0, ev='wait', v=c, ok=bool(e['ok'])))
         elif ev == 'fork_raise':
             ep['events'].append(dict(p=0, ev='fork_raise', v=int(e['nfails']), ok=True))
@@ -474,6 +478,7 @@ def build_episodes(sc, res, events, scripts, cache):
             inbody[pid] = False
             ep['events'].append(dict(p=0, ev='kill_children', v=0, ok=True))
             ep['failed'] = True
+            ep['closed'] = True
         elif ev == 'hang':
             ep['events'].append(dict(p=0, ev='hang', v=0, ok=True))
             ep['failed'] = True
@@ -493,7 +498,13 @@ def build_episodes(sc, res, events, scripts, cache):
                 cache[key] = [r for r in c16_script.analyse(script) if r['branch'] == ep['call']['branch']] if script else []
             if ep['loopno'] < len(cache[key]):
                 rec = cache[key][ep['loopno']]
+        if rec is not None and rec.get('irregular'):
+            # statements under a lock inside a nested loop / conditional run a varying number of times per
+            # iteration: the lock events of this episode are not matched (the fork / range protocol is)
+            rec = dict(rec, nlocks=0, locknames=[], body=[st for st in rec['body'] if not st['locks']])
+            counters['irregular'] = counters.get('irregular', 0) + 1
         if rec is None:
+            counters['unmapped'] = counters.get('unmapped', 0) + 1
             rec = dict(shared=[True], nlocks=0, locknames=[], alllocks=[], body=[])
         # lock creation index -> lock number of the loop
         evs = []
@@ -515,7 +526,7 @@ def build_episodes(sc, res, events, scripts, cache):
         elif not any(x['ev'] == 'hang' for x in evs):
             evs.append(dict(p=0, ev='raise', v=0, ok=True))
         shared = list(rec['shared']) or [True]
-        out.append(dict(id=sc['id'] * 100 + n, np=ep['np'], niter=ep['niter'], shared=shared, nlocks=rec['nlocks'], body=pad_nops(rec['body']),
+        out.append(dict(id=sc['id'] * 100 + n, np=ep['np'], niter=ep['niter'], shared=shared, nlocks=rec['nlocks'], body=pad_nops([dict(op=st['op'], arr=st['arr'], locks=list(st['locks'])) for st in rec['body']]),
                         killed=killed, events=evs, scenario=sc['id'], failed=failed))
     return out
 
@@ -565,10 +576,11 @@ def dynamic(rep, jobs, out, events):
             per[cur].append(e)
     traces = []
     cache = {}
+    counters = {}
     byid = {sc['id']: sc for sc in jobs}
     for r in out['results']:
         sc = byid[r['id']]
-        eps = build_episodes(sc, r, per.get(sc['id'], [dict(pid=0)]), out['scripts'], cache)
+        eps = build_episodes(sc, r, per.get(sc['id'], [dict(pid=0)]), out['scripts'], cache, counters)
         traces += eps
         failed = any(t['failed'] for t in eps)
         # scenario level: a call that raised although no worker failed must raise in the single-process run too
@@ -593,6 +605,7 @@ def dynamic(rep, jobs, out, events):
     rep.extra['dynamic_scenarios'] = len(jobs)
     rep.extra['dynamic_episodes'] = len(traces)
     rep.extra['dynamic_outcomes'] = {k: sum(1 for r in out['results'] if r['outcome'] == k) for k in ('returned', 'raised', 'hang')}
+    rep.extra['dynamic_episode_notes'] = counters
     rep.extra['dynamic_worker_failures'] = sum(1 for t in traces if t['failed'])
     if traces:
         t = max(traces, key=lambda t: (t['failed'], len(t['events'])))
@@ -663,7 +676,9 @@ def run(rep):
             if not ok:
                 raise RuntimeError('spec run {} expected violation {} but got {}'.format(tag, expect, res.violated))
             rep.extra.setdefault('expected_violations', {})[tag] = res.violated
-    zero = [a for a, n in rep.actions.items() if n == 0 and a not in ('Terminated',)]
+    required = ['Fork', 'ForkFail', 'ClaimAcq', 'ClaimRead', 'ClaimWrite', 'ClaimRel', 'ClaimExh', 'AcqA', 'UpdRead', 'UpdWrite', 'RdEnd', 'Slot', 'Nop',
+                'RelA', 'Exc', 'Kill', 'ChildExit', 'Wait', 'Finish']
+    zero = [a for a in required if rep.actions.get(a, 0) == 0]
     if zero:
         raise RuntimeError('vacuity: actions never taken: {}'.format(zero))
     pool.shutdown()
